@@ -202,7 +202,8 @@ Proof.
     destruct ((ex <=? 0) || (1023 <=? ex)) eqn:Ec; [discriminate|].
     apply orb_false_iff in Ec. destruct Ec as [Ec1 Ec2]. apply Z.leb_gt in Ec1. apply Z.leb_gt in Ec2.
     destruct ((2 ^ 52 + man) mod 2 ^ (1025 - ex) =? 0) eqn:Em; [|discriminate].
-    apply Z.eqb_eq in Em. injection H as <-.
+    apply Z.eqb_eq in Em.
+    assert (Hk : k = Z.to_N ((2 ^ 52 + man) / 2 ^ (1025 - ex))) by congruence. clear H. subst k.
     assert (Hman : 0 <= man < 2 ^ 52) by (apply Z.mod_pos_bound; apply Z.pow_pos_nonneg; lia).
     assert (Hp : 0 < 2 ^ (1025 - ex)) by (apply Z.pow_pos_nonneg; lia).
     assert (H8 : 2 ^ 3 <= 2 ^ (1025 - ex)) by (apply Z.pow_le_mono_r; lia).
